@@ -50,29 +50,30 @@ type Scenario struct {
 }
 
 type GenCfg struct {
-	Weights      []int     // weights of the first epoch (len = number of validators)
-	Cheaters     int       // number of forking validators (the lightest ones unless ByzHeavy)
-	ByzHeavy     bool      // cheaters chosen among the heaviest (may exceed 1/3)
-	Epochs       int       // number of epochs
-	EpochEvents  int       // event budget per epoch
-	SealFrames   []int     // frame at which epoch i seals (0 = when the budget is exhausted -> last epoch only)
-	MaxParents   int       // max number of parents incl. self-parent
-	ForkProb     float64   // probability that a cheater's event forks
-	LazyFrame    float64   // probability that an event claims a lower (still allowed) frame
-	Lag          float64   // probability that a validator is "slow" (10x less active)
-	Partition    bool      // split validators into two groups for the middle third of each epoch
-	MutateVals   bool      // change the validator set at each seal
-	OldParent    float64   // probability that an other-parent is an old event instead of the latest
-	BigIdx       bool
-	Rounds       bool      // round-based creation: every validator creates one event per round on top of the previous round
-	SealAtCascade bool     // the application seals at the first block (frame >= 2) that the generator instance decides as a second or later block of one Process call
-	LateJoin     float64   // probability that a validator creates its first event only after a third to two thirds of the budget
-	Stall        int       // after the first round, a minority of the validators gossips alone for this many events (no frame can advance), then everybody returns
-	LagHeavy     bool      // the heaviest validator (first in canonical order) is slow
-	NapProb      float64   // probability (per own event) that a validator falls asleep for a long stretch and later wakes up seeing all heads
-	SiblingForks float64   // share of forks that are siblings of the creator's latest event (same self-parent)
-	ViewP        float64   // Rounds mode: probability that a creator includes another validator's previous-round event
-	Sleeper      bool      // the lightest validator creates one event, sleeps, and wakes up at the end of the budget
+	Weights       []int   // weights of the first epoch (len = number of validators)
+	Cheaters      int     // number of forking validators (the lightest ones unless ByzHeavy)
+	ByzHeavy      bool    // cheaters chosen among the heaviest (may exceed 1/3)
+	Epochs        int     // number of epochs
+	EpochEvents   int     // event budget per epoch
+	SealFrames    []int   // frame at which epoch i seals (0 = when the budget is exhausted -> last epoch only)
+	MaxParents    int     // max number of parents incl. self-parent
+	ForkProb      float64 // probability that a cheater's event forks
+	LazyFrame     float64 // probability that an event claims a lower (still allowed) frame
+	Lag           float64 // probability that a validator is "slow" (10x less active)
+	Partition     bool    // split validators into two groups for the middle third of each epoch
+	MutateVals    bool    // change the validator set at each seal
+	OldParent     float64 // probability that an other-parent is an old event instead of the latest
+	BigIdx        bool
+	Rounds        bool    // round-based creation: every validator creates one event per round on top of the previous round
+	SealAtCascade bool    // the application seals at the first block (frame >= 2) that the generator instance decides as a second or later block of one Process call
+	LateJoin      float64 // probability that a validator creates its first event only after a third to two thirds of the budget
+	Stall         int     // after the first round, a minority of the validators gossips alone for this many events (no frame can advance), then everybody returns
+	LagHeavy      bool    // the heaviest validator (first in canonical order) is slow
+	NapProb       float64 // probability (per own event) that a validator falls asleep for a long stretch and later wakes up seeing all heads
+	SiblingForks  float64 // share of forks that are siblings of the creator's latest event (same self-parent)
+	ViewP         float64 // Rounds mode: probability that a creator includes another validator's previous-round event
+	SleeperOld    bool    // with Sleeper: it wakes up two dozen events before the end and its first event after waking refers only to an old event
+	Sleeper       bool    // the lightest validator creates one event, sleeps, and wakes up at the end of the budget
 }
 
 func buildVals(vs []ValW) *pos.Validators {
@@ -225,7 +226,7 @@ func Generate(r *rand.Rand, cfg GenCfg, rec *Recorder) *Scenario {
 		pv := buildVals(vals)
 		var nextVals []ValW
 		curJump, curN := 0, 0 // frames the event being processed by the generator instance passes at once; its index
-		nbBeforeCall := -1 // number of blocks of the generator instance before its current Process call (-1: not generating)
+		nbBeforeCall := -1    // number of blocks of the generator instance before its current Process call (-1: not generating)
 		seal := func(e idx.Epoch, f idx.Frame) *pos.Validators {
 			if e == ep.Epoch && cfg.SealAtCascade && ep.SealFrame == 0 && nbBeforeCall >= 0 && gen != nil &&
 				len(gen.Blocks)-nbBeforeCall >= 1 && f >= 2 && epi < cfg.Epochs-1 && (curJump >= 2 || curN > 2*cfg.EpochEvents/3) {
@@ -338,7 +339,7 @@ func Generate(r *rand.Rand, cfg GenCfg, rec *Recorder) *Scenario {
 				if slow[c.ID] && r.Intn(slowFactor) != 0 {
 					continue
 				}
-				if cfg.Sleeper && c.ID == sorted[0].ID && len(own[c.ID]) > 0 && n < budget-3 {
+				if cfg.Sleeper && c.ID == sorted[0].ID && len(own[c.ID]) > 0 && (n < budget-3 && !cfg.SleeperOld || n < budget-24) {
 					continue
 				}
 				if at, ok := joinAt[c.ID]; ok && n < at {
@@ -435,6 +436,10 @@ func Generate(r *rand.Rand, cfg GenCfg, rec *Recorder) *Scenario {
 				}
 				if r.Float64() < cfg.OldParent {
 					cand = own[o.ID][r.Intn(len(own[o.ID]))]
+				}
+				if cfg.Sleeper && cfg.SleeperOld && c.ID == sorted[0].ID && len(mine) == 1 {
+					cand = own[o.ID][len(own[o.ID])/8]
+					np = 1
 				}
 				others = append(others, cand)
 			}
